@@ -6,6 +6,7 @@ the loop needs at most one pass per class) thereby speak about this code — on 
 parents and exclusions, for every value the fields hold.
 -/
 import PamsLemmas.SrcConfig
+import PamsLemmas.SrcRegistry
 import Batteries.Tactic.Alias
 
 open Pams Pams.Py Pams.Config Pams.Src
@@ -43,5 +44,11 @@ alias source_json_random := json_random_src
 
 /-- ill-formed specifications are refused before any draw -/
 alias source_json_random_refusals := json_random_src_refusals
+
+/-- **registration keeps ids and names unique**: `Simulator._add_agent` refuses an id or a name already in
+use, otherwise appends, counts, indexes by id and name, files the agent as high-frequency iff its class
+descends from `HighFrequencyAgent`, and adds it to its group — for every id value -/
+alias source_registry_add_agent := registry_src_add_agent
+alias source_registry_duplicate_name := registry_src_duplicate_name
 
 end Pams.C18
